@@ -360,15 +360,30 @@ func (s *Scen) compareAtPromotion(x *RepProc, snaps map[string][]uint32) {
 		if os.Getenv("VERIF_DEV_KEEP") != "" {
 			diag += "\n" + cl.dumpSector(msg)
 		}
-		cls := "other-replica"
-		f11 := cl.rmwPattern(x, msg)
-		if strings.Contains(diag, fmt.Sprintf("[replica %d stored image (reopened copy): matches", x.Idx)) {
-			cls = "promoted-replica-serves-stale-data-its-files-are-right"
-		} else if strings.Contains(diag, fmt.Sprintf("[replica %d stored image (reopened copy): sector", x.Idx)) {
-			cls = "promoted-replica-files-lack-data"
-			if f11 {
+		// whose files lack the data: the replica whose promotion triggered the check, or another one that was rebuilt
+		// in the same cycle (the source killed while x rebuilt is itself rebuilt afterwards, under the same writes)
+		cls := "every-stored-image-is-right"
+		var stale []*RepProc
+		for _, p := range cl.Reps {
+			if strings.Contains(diag, fmt.Sprintf("[replica %d stored image (reopened copy): sector", p.Idx)) {
+				stale = append(stale, p)
+			}
+		}
+		for _, p := range stale {
+			if p == x {
+				cls = "promoted-replica-files-lack-data"
+			} else if cls == "every-stored-image-is-right" {
+				cls = "files-of-another-rebuilt-replica-lack-data"
+			}
+		}
+		for _, p := range stale {
+			if cl.rmwPattern(p, msg) {
+				// F11, on whichever rebuilt replica it struck
 				cls = "promoted-replica-head-block-mixes-a-newer-sub-block-write-with-stale-sectors"
 			}
+		}
+		if len(stale) == 0 && strings.Contains(diag, fmt.Sprintf("[replica %d stored image (reopened copy): matches", x.Idx)) {
+			cls = "promoted-replica-serves-stale-data-its-files-are-right"
 		}
 		s.Fail([]string{"C07", "C04"}, "promotion:served-data-differs:"+cls, fmt.Sprintf("after replica %d was promoted: %s;%s", x.Idx, msg, diag))
 		return
